@@ -9,6 +9,7 @@ import (
 )
 
 func init() {
+	verifRegister("VerifC03_KForged", VerifC03_KForged)
 	verifRegister("VerifC03_KBuiltins", VerifC03_KBuiltins)
 	verifRegister("VerifC03_KSource", VerifC03_KSource)
 	verifRegister("VerifC03_KCycle", VerifC03_KCycle)
@@ -349,6 +350,38 @@ func VerifC03_KIndexed() {
 			vAssert(c != nil, "a returned sequence holds values in every slot")
 		}
 	}
+	cleanRuntime(env, "user")
+	vCover("end")
+}
+
+
+// A program can mint a tagged value whose type NAME is lisp:typedef but whose user data is not a
+// (name constructor) pair -- by defining a type named lisp:typedef and instantiating it.  Every
+// builtin that takes a typedef must answer such a forged one with an ordinary error (or a value),
+// never with internal-panic.  6 shapes of user data x 10 operations.
+func VerifC03_KForged_Setup() { VerifC03_KBuiltins_Setup() }
+
+func VerifC03_KForged() {
+	env := c03Env
+	if env == nil {
+		VerifC03_KBuiltins_Setup()
+		env = c03Env
+	}
+	datas := []string{"5", "'(1)", "'()", "'(a 1)", "\"s\"", "(vector)", "(list i)", "(list 'nm (lambda (x) x) 3)"}
+	ops := []string{"(new T)", "(new T 1 2)", "(type? T 1)", "(s:make-validator T \"string\")", "(s:deftype \"dt\" T)", "(type T)", "(user-data T)",
+		"(to-string T)", "(equal? T T)", "(format-string \"{}\" T)", "(s:validate (s:make-validator \"v\" T) 1)"}
+	di := vConcInt(vndChoice("data", len(datas)))
+	oi := vConcInt(vndChoice("op", len(ops)))
+	env.PutGlobal(lisp.Symbol("i"), lisp.Int(vndInt("i")))
+	r := env.LoadString("forge", "(set 'T (new (new lisp:typedef 'lisp:typedef (lambda (x) x)) "+datas[di]+"))")
+	vObserve("case", ops[oi]+" with user data "+datas[di])
+	vAssert(!lisp.IsInternalPanic(r), "forging does not panic the host: "+outcome(r))
+	if r.Type == lisp.LError {
+		vCover("refused-at-forge")
+		return
+	}
+	res := env.LoadString("use", ops[oi])
+	vAssert(!lisp.IsInternalPanic(res), "no builtin answers a forged typedef with internal-panic: "+outcome(res))
 	cleanRuntime(env, "user")
 	vCover("end")
 }
